@@ -31,6 +31,12 @@ XStep(st, e, t) ==
              THEN Bad(st, "membership in a remote record (by number / by name) is wrong")
            ELSE IF e.traffic # 0 THEN Bad(st, "questions about a remote record caused SDO traffic")
            ELSE Good(st)
+      [] e.e = "importnode" ->
+           IF e.first # <<ImportRequest>> THEN Bad(st, "import_from_node does not start with an upload request of 0x1021:00")
+           ELSE IF e.got # ImportSucceeds(e.mode) THEN Bad(st, "import_from_node: a dictionary exactly when the device delivered a readable EDS, None otherwise")
+           ELSE IF e.got /\ (e.indexes # <<4096, 8192>> \/ e.def2000 # ImportNode + 512) THEN Bad(st, "import_from_node: not the dictionary the device describes (entries / $NODEID resolved with the node's id)")
+           ELSE IF e.left # ImportSubscribersLeft THEN Bad(st, "import_from_node left a subscription behind (or kept one: the code removes every handler of that id)")
+           ELSE Good(st)
       [] OTHER -> Bad(st, "unknown event")
 TraceFile == JsonDeserialize(IOEnv.TRACE_FILE)
 VARIABLES tid, l, st
